@@ -107,18 +107,23 @@ theorem C03_path_probability (betas logls : List Rat) (m : Nat) (s : SweepSt) (d
 /-- The event of one pair is the model's decision: for `u ∈ (0,1)` whose log is separated from
     the rationals like the `logu` handed to the model, `u` lies in the "swap" event of a drawn
     pair iff the model's test `logu ≤ logar` succeeds. -/
-theorem C03_pair_event_is_model_decision (l logu : Rat) {u : ℝ} (hu : 0 < u) (hu1 : u < 1)
+theorem C03_pair_event_is_model_decision (l logu : Rat) {u : ℝ} (hu : 0 < u)
     (hside : ∀ r : Rat, logu ≤ r ↔ Real.log u ≤ (r : ℝ)) (d : Bool) :
-    u ∈ pairEvent (AR.exp l) d ↔ d = decide (logu ≤ l) := by
-  unfold pairEvent
-  simp only [Set.mem_ofPred_eq, Set.mem_Ico, acceptedAR]
-  rw [← logspace_test hu, ← hside l]
-  constructor
-  · rintro ⟨_, h⟩
-    cases d <;> simp_all
-  · intro h
-    refine ⟨⟨hu.le, hu1⟩, ?_⟩
-    cases d <;> simp_all
+    u ∈ pairEvent (AR.exp l) d ↔ (u ∈ Set.Ico (0:ℝ) 1 ∧ d = decide (logu ≤ l)) :=
+  pairEvent_exp_iff l logu hu hside d
+
+/-- Soundness of the path events: if every pair's uniform lies in the event of
+    `C03_path_probability` (one uniform per pair; the one of a pair with `logar > 0` is ignored),
+    then the model's loop, fed with the logs of the uniforms of the pairs that draw, follows
+    exactly the path `ds` and uses the stream up. (The events of different paths are disjoint
+    and their probabilities sum to one, `C03_sweep_kernel_stochastic`.) -/
+theorem C03_path_event_follows_path (betas logls : List Rat) (m : Nat) (s : SweepSt)
+    (ds : List Bool) (us : List ℝ) (xs : List Rat) (hd : ds.length = m)
+    (h : InEvents (pathPairs betas logls m s ds) us xs) :
+    loop betas logls m s (drawnLogs (pathPairs betas logls m s ds) xs)
+      = some (loopPath betas logls m s ds, []) :=
+  (loop_iff_path betas logls m s _ _).mpr
+    ⟨ds, hd, realises_of_inEvents betas logls m s ds us xs hd h, rfl⟩
 
 /-! ### The sweep kernel and its invariant law -/
 
@@ -215,5 +220,18 @@ example : (0 < 4) ∧ (∀ x, 0 < likOf ell0 x) ∧ betas0.getD 3 7 = 0 ∧ ell0
 /-- `C03_path_probability`: along the path above the three ratios are `1`, `exp 0`, `exp(-1/4)`. -/
 example : (pathPairs betas0 logls0 3 (init 4 logls0) [true, true, false]).map (·.1)
     = [.one, .exp 0, .exp (-1/4)] := by decide +kernel
+
+/-- `C03_path_event_follows_path`: two levels `β = (1, 0)`, log-likelihoods `(0, -1)`: the pair is
+    drawn at `logar = -1`; the uniform `u = exp(-2)` (handed to the model as `-2`) lies in the
+    event of the decision "swap". -/
+example : InEvents (pathPairs [1, 0] [0, -1] 1 (init 2 [0, -1]) [true]) [Real.exp (-2)] [-2] := by
+  have hp : pathPairs [1, 0] [0, -1] 1 (init 2 [0, -1]) [true] = [(.exp (-1), true)] := by
+    decide +kernel
+  rw [hp]
+  refine ⟨Real.exp_pos _, fun r => ?_, ⟨⟨(Real.exp_pos _).le, ?_⟩, ?_⟩, trivial⟩
+  · rw [Real.log_exp]; exact_mod_cast Iff.rfl
+  · rw [← Real.exp_zero]; exact Real.exp_lt_exp.mpr (by norm_num)
+  · simp only [acceptedAR, iff_true]
+    exact Real.exp_le_exp.mpr (by norm_num)
 
 end Epsie.C03
